@@ -6,6 +6,7 @@
 From Coq Require Import ZArith Reals List.
 From Coquelicot Require Import Coquelicot.
 Require Import Num Vec step_gen C41_Model C41_Proofs.
+Require stepf_gen.
 Import ListNotations.
 Local Open Scope R_scope.
 
@@ -131,4 +132,16 @@ Theorem C41_d2stepAny_flat_outside yr x0 oox x : (x - x0) * oox < 0 \/ 1 < (x - 
   is_derive (fun t => k_d2stepAny ROps yr x0 oox t) x 0.
 Proof. exact (d2stepAny_flat_outside yr x0 oox x). Qed.
 Print Assumptions C41_d2stepAny_flat_outside.
+
+Theorem C41_float_overloads_same_formulas T (K : NumOps T) :
+  (forall x, stepf_gen.k_stepUp K x = k_stepUp K x) /\ (forall x, stepf_gen.k_dstepUp K x = k_dstepUp K x) /\
+  (forall x, stepf_gen.k_d2stepUp K x = k_d2stepUp K x) /\ (forall x, stepf_gen.k_d3stepUp K x = k_d3stepUp K x) /\
+  (forall x, stepf_gen.k_stepDown K x = k_stepDown K x) /\ (forall x, stepf_gen.k_dstepDown K x = k_dstepDown K x) /\
+  (forall x, stepf_gen.k_d2stepDown K x = k_d2stepDown K x) /\ (forall x, stepf_gen.k_d3stepDown K x = k_d3stepDown K x) /\
+  (forall y0 yr x0 oox x, stepf_gen.k_stepAny K y0 yr x0 oox x = k_stepAny K y0 yr x0 oox x) /\
+  (forall yr x0 oox x, stepf_gen.k_dstepAny K yr x0 oox x = k_dstepAny K yr x0 oox x) /\
+  (forall yr x0 oox x, stepf_gen.k_d2stepAny K yr x0 oox x = k_d2stepAny K yr x0 oox x) /\
+  (forall yr x0 oox x, stepf_gen.k_d3stepAny K yr x0 oox x = k_d3stepAny K yr x0 oox x).
+Proof. exact (float_overloads_same_formulas T K). Qed.
+Print Assumptions C41_float_overloads_same_formulas.
 
